@@ -536,16 +536,22 @@ CircuitSpec smallOther(Rng &r) {
 // Utilisation > 100 % / impossible polarity: infeasible legalization as a fault
 void makeInfeasible(Rng &r, CircuitSpec &s, int H) {
   int mode = (int)r.below(3);
+  auto widen = [](CellSpec &k, long long f) {
+    long long w = (long long)k.w * f;
+    // stay inside the supported magnitude range (|v| <= 2^22, area < 2^31)
+    while (w > (1LL << 22) || w * std::max(1, k.h) >= (1LL << 31)) w /= 2;
+    k.w = (int)std::max<long long>(w, k.w);
+  };
   if (mode == 0) {
     for (auto &k : s.cells)
-      if (!k.fixed && !Snapshot::isTurned(k.orient)) k.w *= (int)r.range(3, 12);
+      if (!k.fixed && !Snapshot::isTurned(k.orient)) widen(k, r.range(3, 12));
   } else if (mode == 1) {
     // a cell wider than every segment
     for (auto &k : s.cells)
       if (!k.fixed && !Snapshot::isTurned(k.orient)) {
         long long widest = 0;
         for (auto &rw : s.rows) widest = std::max<long long>(widest, rw.maxX - rw.minX);
-        k.w = (int)(widest + 1);
+        if ((widest + 1) * std::max(1, k.h) < (1LL << 31)) k.w = (int)(widest + 1);
         break;
       }
   } else {
@@ -559,7 +565,7 @@ void makeInfeasible(Rng &r, CircuitSpec &s, int H) {
       if (!k.fixed && !Snapshot::isTurned(k.orient)) {
         if (!hasNW) k.pol = P_NW;
         else if (!hasSE) k.pol = P_SE;
-        else k.w *= 20;
+        else widen(k, 20);
         break;
       }
   }
